@@ -83,6 +83,7 @@ func c06pair(c *core.Ctx) {
 
 func c06skip(c *core.Ctx) {
 	const R = "C06.skip"
+	orBad := ""
 	c.Rule(R, "recursionChecker.check: the first statement returns nil for optional or nullable nodes (so every recursive call is dominated by that test); array, literal and mixed nodes return nil without recursing; an object recurses into every child and returns the first error (AND); checkMixedValueNode returns an error only when every alternative failed: len(ee) > 0 && len(ee) == len(tt) (OR)")
 	c.Floor(R, 6)
 	d := c.P.FindDecl(recPkg + "check")
@@ -92,110 +93,161 @@ func c06skip(c *core.Ctx) {
 		return
 	}
 	pos := c.P.Pos(d.Decl.Pos())
-	first := false
-	if len(d.Decl.Body.List) > 0 {
-		if ifs, ok := d.Decl.Body.List[0].(*ast.IfStmt); ok {
-			cond := core.ExprStr(ifs.Cond)
-			if strings.Contains(cond, "IsOptionalNode(") && strings.Contains(cond, "IsNullableNode(") && strings.Contains(cond, "||") && len(ifs.Body.List) == 1 {
-				if r, ok := ifs.Body.List[0].(*ast.ReturnStmt); ok && len(r.Results) == 1 && core.ExprStr(r.Results[0]) == "nil" {
-					first = true
-				}
+	// ---- check(node, types), tabulated: optional x nullable x node kind (objects with 0..2
+	// children and every pattern of failing children, choices that fail or not)
+	{
+		recv := d.Decl.Recv.List[0].Names[0].Name
+		type cell struct {
+			kind     string
+			children int
+			failMask int
+			mixedErr int64
+		}
+		var cells []cell
+		for _, k := range []string{"ArrayNode", "LiteralNode", "MixedNode"} {
+			cells = append(cells, cell{kind: k})
+		}
+		cells = append(cells, cell{kind: "MixedValueNode", mixedErr: 0}, cell{kind: "MixedValueNode", mixedErr: 1})
+		for n := 0; n <= 2; n++ {
+			for m := 0; m < 1<<n; m++ {
+				cells = append(cells, cell{kind: "ObjectNode", children: n, failMask: m})
 			}
 		}
-	}
-	c.Check(first, R, "check:optional-nullable-first", pos, "optional or nullable nodes end the walk before anything else", "the optional/nullable test no longer guards the whole walk: an optional or nullable self-reference is reported as infinite recursion")
-	// leaf cases
-	leafOK, objOK := false, false
-	ast.Inspect(d.Decl.Body, func(n ast.Node) bool {
-		cc, ok := n.(*ast.CaseClause)
-		if !ok {
-			return true
-		}
-		var tys []string
-		for _, e := range cc.List {
-			tys = append(tys, core.ExprStr(e))
-		}
-		joined := strings.Join(tys, ",")
-		if strings.Contains(joined, "ArrayNode") && strings.Contains(joined, "LiteralNode") && strings.Contains(joined, "MixedNode") {
-			if len(cc.Body) == 1 {
-				if r, ok := cc.Body[0].(*ast.ReturnStmt); ok && len(r.Results) == 1 && core.ExprStr(r.Results[0]) == "nil" {
-					leafOK = true
-				}
-			}
-		}
-		if strings.Contains(joined, "ObjectNode") {
-			// for ... range Children() { if err := c.check(n, types); err != nil { return err } }
-			ast.Inspect(cc, func(m2 ast.Node) bool {
-				rs, ok := m2.(*ast.RangeStmt)
-				if !ok || !strings.HasSuffix(core.ExprStr(rs.X), ".Children()") {
-					return true
-				}
-				hasBreak := false
-				retErr := false
-				ast.Inspect(rs.Body, func(m3 ast.Node) bool {
-					switch y := m3.(type) {
-					case *ast.BranchStmt:
-						hasBreak = true
-					case *ast.IfStmt:
-						if strings.Contains(core.ExprStr(y.Cond), "err != nil") {
-							for _, s := range y.Body.List {
-								if r, ok := s.(*ast.ReturnStmt); ok && len(r.Results) == 1 && core.ExprStr(r.Results[0]) == "err" {
-									retErr = true
-								}
+		bad := map[string]string{}
+		nCells := 0
+		for _, cl := range cells {
+			for opt := int64(0); opt <= 1; opt++ {
+				for nul := int64(0); nul <= 1; nul++ {
+					nCells++
+					cl := cl
+					e := &miniEval{pk: d.Pkg, env: map[string]int64{}}
+					e.dyn = func(x ast.Expr) string { return cl.kind }
+					e.rng = func(x ast.Expr) ([]int64, bool) {
+						if strings.HasSuffix(core.ExprStr(x), ".Children()") {
+							out := make([]int64, cl.children)
+							for i := range out {
+								out[i] = int64(i)
+							}
+							return out, true
+						}
+						return nil, false
+					}
+					e.hook = func(x ast.Expr) (int64, bool) {
+						switch y := x.(type) {
+						case *ast.Ident:
+							if y.Name == "nil" {
+								return 0, true
+							}
+						case *ast.CallExpr:
+							f := core.ExprStr(y.Fun)
+							switch {
+							case strings.HasSuffix(f, "IsOptionalNode"):
+								return opt, true
+							case strings.HasSuffix(f, "IsNullableNode"):
+								return nul, true
+							case f == recv+".check" && len(y.Args) >= 1:
+								idx := e.expr(y.Args[0])
+								return int64(cl.failMask>>uint(idx)) & 1, true
+							case f == recv+".checkMixedValueNode":
+								return cl.mixedErr, true
+							case strings.HasSuffix(f, ".Children") && len(y.Args) == 0:
+								return int64(cl.children), true
+							}
+							if t := core.TypeOf(d.Pkg, y); t != nil && core.IsErrorType(t) {
+								return 1, true
 							}
 						}
+						return 0, false
 					}
-					return true
-				})
-				objOK = retErr && !hasBreak
-				return false
-			})
-		}
-		return true
-	})
-	c.Check(leafOK, R, "check:leaf-cases", pos, "array, literal and mixed nodes return nil without recursing", "an array/literal/mixed node no longer ends the walk: `[@a]` inside @a would be reported as infinite recursion")
-	c.Check(objOK, R, "check:object-and", pos, "objects recurse into all children and return the first error", "the object case no longer checks every child / no longer propagates a child's error: a required self-reference hidden behind another property goes unreported")
-	// OR
-	orOK := false
-	ast.Inspect(m.Decl.Body, func(n ast.Node) bool {
-		ifs, ok := n.(*ast.IfStmt)
-		if !ok {
-			return true
-		}
-		cond := core.ExprStr(ifs.Cond)
-		if strings.Contains(cond, "len(ee) == len(tt)") && strings.Contains(cond, "len(ee) > 0") && strings.Contains(cond, "&&") {
-			orOK = true
-		}
-		return true
-	})
-	// every alternative is walked: the loop over the alternatives has no continue/break/return and calls checkType
-	loopOK, loopWhy := false, "no loop over the alternatives calling checkType"
-	ast.Inspect(m.Decl.Body, func(n ast.Node) bool {
-		rs, ok := n.(*ast.RangeStmt)
-		if !ok {
-			return true
-		}
-		calls := false
-		bad := ""
-		ast.Inspect(rs.Body, func(k ast.Node) bool {
-			switch y := k.(type) {
-			case *ast.CallExpr:
-				if core.ExprStr(y.Fun) == "c.checkType" {
-					calls = true
+					st, rets := e.run(d.Decl.Body.List)
+					got := int64(-1)
+					if st == miniReturn && len(rets) == 1 {
+						got = b2i(rets[0] != 0)
+					}
+					want := int64(0)
+					if opt == 0 && nul == 0 {
+						switch cl.kind {
+						case "MixedValueNode":
+							want = cl.mixedErr
+						case "ObjectNode":
+							want = b2i(cl.failMask != 0)
+						}
+					}
+					var key string
+					switch {
+					case opt == 1 || nul == 1:
+						key = "check:optional-nullable-first"
+					case cl.kind == "ObjectNode":
+						key = "check:object-and"
+					default:
+						key = "check:leaf-cases"
+					}
+					if e.unknown != "" {
+						bad[key] = "undecided: " + e.unknown
+					} else if got != want && bad[key] == "" {
+						bad[key] = core.F("%s (children %d, failing %02b, choice error %d), optional=%d nullable=%d: error=%d, expected %d", cl.kind, cl.children, cl.failMask, cl.mixedErr, opt, nul, got, want)
+					}
 				}
-			case *ast.BranchStmt:
-				bad = y.Tok.String()
-			case *ast.ReturnStmt:
-				bad = "return"
 			}
-			return true
-		})
-		if calls {
-			loopOK, loopWhy = bad == "", "the loop over the alternatives leaves or skips with `"+bad+"`"
 		}
-		return true
-	})
-	c.Check(loopOK, R, "checkMixedValueNode:every-alternative", c.P.Pos(m.Decl.Pos()), "every alternative of a choice is walked", loopWhy+": an alternative that is skipped counts as finite, so a root that requires itself through it is accepted")
+		c.Extra[R+":check:cells"] = nCells
+		c.Check(bad["check:optional-nullable-first"] == "", R, "check:optional-nullable-first", pos, "optional or nullable nodes end the walk before anything else", "an optional or nullable node does not end the walk: an optional or nullable self-reference is reported as infinite recursion: "+bad["check:optional-nullable-first"])
+		c.Check(bad["check:leaf-cases"] == "", R, "check:leaf-cases", pos, "array, literal and mixed nodes are finite; a choice answers what checkMixedValueNode answers", bad["check:leaf-cases"])
+		c.Check(bad["check:object-and"] == "", R, "check:object-and", pos, "objects recurse into all children and report an error iff one child does", "the object case no longer checks every child / no longer propagates a child's error: a required self-reference hidden behind another property goes unreported: "+bad["check:object-and"])
+	}
+	// ---- checkMixedValueNode, tabulated: 0..3 alternatives x every pattern of failing ones
+	{
+		recv := m.Decl.Recv.List[0].Names[0].Name
+		bad, badLoop := "", ""
+		for n := 0; n <= 3; n++ {
+			for mask := 0; mask < 1<<n; mask++ {
+				called := map[int64]bool{}
+				e := &miniEval{pk: m.Pkg, env: map[string]int64{}, lens: map[string]bool{}}
+				e.hook = func(x ast.Expr) (int64, bool) {
+					switch y := x.(type) {
+					case *ast.Ident:
+						if y.Name == "nil" {
+							return 0, true
+						}
+					case *ast.IndexExpr:
+						// ee[0]: an element of the error list
+						if e.lens[core.ExprStr(y.X)] && core.TypeOf(m.Pkg, y) != nil && core.IsErrorType(core.TypeOf(m.Pkg, y)) {
+							return 1, true
+						}
+					case *ast.CallExpr:
+						f := core.ExprStr(y.Fun)
+						switch {
+						case strings.HasSuffix(f, ".GetTypes"):
+							return int64(n), true
+						case f == recv+".checkType" && len(y.Args) >= 1:
+							idx := e.expr(y.Args[0])
+							called[idx] = true
+							return int64(mask>>uint(idx)) & 1, true
+						}
+					}
+					return 0, false
+				}
+				st, rets := e.run(m.Decl.Body.List)
+				got := int64(-1)
+				if st == miniReturn && len(rets) == 1 {
+					got = b2i(rets[0] != 0)
+				}
+				want := b2i(n > 0 && mask == 1<<n-1)
+				if e.unknown != "" {
+					bad = "undecided: " + e.unknown
+				} else if got != want && bad == "" {
+					bad = core.F("%d alternatives, failing %0*b: error=%d, expected %d", n, n, mask, got, want)
+				}
+				for i := int64(0); i < int64(n); i++ {
+					if !called[i] && badLoop == "" && e.unknown == "" {
+						badLoop = core.F("%d alternatives, failing %0*b: alternative %d is never walked", n, n, mask, i)
+					}
+				}
+			}
+		}
+		c.Check(badLoop == "", R, "checkMixedValueNode:every-alternative", c.P.Pos(m.Decl.Pos()), "every alternative of a choice is walked", badLoop+": an alternative that is skipped counts as finite, so a root that requires itself through it is accepted")
+		orBad = bad
+	}
 	// the walk keeps no memory besides the current path: every map of the checker that is
 	// consulted during the walk is path-scoped (its entries are deleted when the type is left)
 	{
@@ -235,7 +287,7 @@ func c06skip(c *core.Ctx) {
 			c.Bad(R, "state", pos, "visited set of the recursion walk", "undecided: the walk consults no map")
 		}
 	}
-	c.Check(orOK, R, "checkMixedValueNode:or", c.P.Pos(m.Decl.Pos()), "`@a | @b` fails only if every alternative fails", "the alternative rule is no longer `all alternatives failed`: a choice with one finite alternative is reported, or one with none is accepted")
+	c.Check(orBad == "", R, "checkMixedValueNode:or", c.P.Pos(m.Decl.Pos()), "`@a | @b` fails only if every alternative fails", "the alternative rule is no longer `all alternatives failed`: a choice with one finite alternative is reported, or one with none is accepted: "+orBad)
 }
 
 func c06table(c *core.Ctx) {
